@@ -98,13 +98,18 @@ def pair_items(firsts, rng):
     names_early = [o.name for o in ops if not o.needs]
     first_ops = ops if firsts is None else rng.sample(ops, min(firsts, len(ops)))
     items = []
+    # process-global state accumulates over the second operations inside one sweep child, so a
+    # polluting call followed (later in the list) by a sensitive one is noticed; alternate the list
+    # order so that both relative orders of any two calls occur
     for j, a in enumerate(first_ops):
+        rev = (j // 2) % 2 == 1
+        order = (lambda lst: list(reversed(lst))) if rev else (lambda lst: lst)
         if a.needs or (firsts is not None and j % 2):
-            items.append((a.name, names_all, ("L1", "L2")))
+            items.append((a.name, order(names_all), ("L1", "L2")))
         else:
-            items.append((a.name, names_early, ()))
+            items.append((a.name, order(names_early), ()))
         if firsts is None and not a.needs:
-            items.append((a.name, names_all, ("L1", "L2")))
+            items.append((a.name, order(names_all), ("L1", "L2")))
     return items
 
 
@@ -167,7 +172,11 @@ def check(args):
     res = core.run_batch(_pair_task, items, timeout=600.0, deadline=pair_deadline, on_result=on_pair)
     pairs_complete = len(res) == len(items)
     t_pairs = time.time() - t2
-    for pv in pair_viol[:20]:
+    seen_b = set()
+    for pv in pair_viol:
+        if pv["b"] in seen_b or len(seen_b) >= 6:
+            continue
+        seen_b.add(pv["b"])
         steps = [{"import": k} for k in pv["mods"]] + [{"op": pv["a"], "ctx": 0}, {"op": pv["b"], "ctx": 0}]
         spec = {"seed": -1, "nctx": 1, "steps": steps}
         out, err = run_solo(spec)
@@ -177,7 +186,17 @@ def check(args):
             if sig not in first_by_sig:
                 first_by_sig[sig] = spec
         else:
-            report.harness_errors.append(f"pair {pv['a']} ; {pv['b']} differed inside the sweep but not alone (process-global carry-over across pairs?): {json.dumps(pv)[:600]}")
+            # not reproducible as a pair: process-global state left by an earlier call of the sweep
+            long_steps = [{"import": k} for k in pv["mods"]] + [{"op": nm, "ctx": 0} for nm in pv["before"][-400:]] + [{"op": pv["a"], "ctx": 0}, {"op": pv["b"], "ctx": 0}]
+            spec = {"seed": -2, "nctx": 1, "steps": long_steps}
+            out, err = run_solo(spec, timeout=300.0)
+            hits = list(out["viol"]) if out else []
+            if hits:
+                sig = tuple(hits[0]["sig"])
+                agg["sigs"][sig] += 1
+                first_by_sig.setdefault(sig, spec)
+            else:
+                report.harness_errors.append(f"pair {pv['a']} ; {pv['b']} differed inside the sweep but neither alone nor after the preceding calls: {json.dumps(pv)[:500]}")
     # ---- triage
     for sig, seed_or_spec in sorted(first_by_sig.items(), key=lambda kv: kv[0])[:8]:
         spec = seed_or_spec if isinstance(seed_or_spec, dict) else c14.gen_spec(seed_or_spec)
